@@ -316,8 +316,9 @@ fn workdir() -> PathBuf {
 }
 
 fn write_files(dir: &PathBuf, old_text: &str) -> Vec<PathBuf> {
-    let _ = std::fs::write(dir.join("zippy.txt"), "ab\tzip\n");
-    let _ = std::fs::write(dir.join("zippy2.txt"), "ab\tother\n");
+    // "ab b": follow-up chord, only available right after ab was activated
+    let _ = std::fs::write(dir.join("zippy.txt"), "ab\tzip\nab b\tzq\n");
+    let _ = std::fs::write(dir.join("zippy2.txt"), "ab\tother\nab a\tow\n");
     let paths: Vec<PathBuf> = (0..3).map(|i| dir.join(format!("f{i}.kbd"))).collect();
     for p in &paths {
         let _ = std::fs::remove_dir_all(p);
